@@ -160,6 +160,7 @@ func (Prop) Run(c *engine.Ctx) {
 
 	runBerBoundaries(c)
 	runMixedSigners(c, getPKI)
+	c.Case("psk/key-buffer-rotated-in-place", pskKeyBufferRotated)
 
 	// ---------------- E3 EncryptedData first: small artefacts, so this case is the cheap replay for every
 	// parser / content-cipher panic class it shares with the big seeds (the engine confirms a finding key by
